@@ -36,7 +36,7 @@ def run(chk):
     if gi is None:
         chk.broken_obligation("translator/table-extractor", err)
     chk.prove(["Props/Properties_C13.v"])
-    n = 160 if chk.tier == "quick" else 6000
+    n = 400 if chk.tier == "quick" else 8000
     cases = [sc.gen_consent(chk.rng, i) for i in range(n)]
     sc.run_sim(chk, cases, oracle, "sim-C13")
     return chk.finish(**FINISH)
